@@ -1,6 +1,6 @@
 CONSTANTS
   Depth = 2
-  KeySubset = {"int32", "int64", "string", "typeref", "enum", "custom", "complex", "bool", "bytes", "fixed", "float64"}
+  KeySubset = {"int32", "int64", "string", "bool", "typeref", "enum", "custom", "complex"}
 SPECIFICATION Spec
 INVARIANT Export
 CHECK_DEADLOCK FALSE
